@@ -150,6 +150,7 @@ type walker struct {
 	file  string
 	count map[string]int
 	defs  []def
+	nats  []def
 	datum bool
 }
 
@@ -174,6 +175,95 @@ func (w *walker) emit(where, lhs string, rhs ast.Expr, pos token.Pos, srcText st
 	}
 	p := w.fset.Position(pos)
 	w.defs = append(w.defs, def{name, fmt.Sprintf("%s:%d `%s`", w.file, p.Line, srcText), params, body})
+}
+
+var cmpOps = map[token.Token]string{token.LSS: "lt", token.LEQ: "le", token.GTR: "gt", token.GEQ: "ge", token.EQL: "eq", token.NEQ: "ne"}
+
+// cond: every float comparison inside a guard (`if`, `for` condition; through !, &&, ||, parentheses) becomes two
+// definitions, left and right operand, with the comparison operator in the name: a changed threshold, operand or
+// operator (<= vs <) breaks the tie lemma that restates the guard.
+func (w *walker) cond(where string, e ast.Expr, src []byte) {
+	switch t := e.(type) {
+	case *ast.ParenExpr:
+		w.cond(where, t.X, src)
+	case *ast.UnaryExpr:
+		if t.Op == token.NOT {
+			w.cond(where, t.X, src)
+		}
+	case *ast.BinaryExpr:
+		if t.Op == token.LAND || t.Op == token.LOR {
+			w.cond(where, t.X, src)
+			w.cond(where, t.Y, src)
+			return
+		}
+		op, ok := cmpOps[t.Op]
+		if !ok {
+			return
+		}
+		cl := &ctx{seen: map[string]bool{}, ok: true, datum: w.datum}
+		cr := &ctx{seen: map[string]bool{}, ok: true, datum: w.datum}
+		l, r := cl.expr(t.X), cr.expr(t.Y)
+		if !cl.ok || !cr.ok {
+			return
+		}
+		key := where + "_cond_" + op
+		w.count[key]++
+		base := fmt.Sprintf("%s_%s_%d", strings.TrimSuffix(w.file, ".go"), key, w.count[key])
+		p := w.fset.Position(t.Pos())
+		doc := fmt.Sprintf("%s:%d guard `%s`", w.file, p.Line, text(w.fset, src, t))
+		params := func(c *ctx) string {
+			s := ""
+			if c.usesSR {
+				s += " (s : SR α)"
+			}
+			if c.usesD {
+				s += " (d : Datum α)"
+			}
+			if len(c.free) > 0 {
+				s += " (" + strings.Join(c.free, " ") + " : α)"
+			}
+			return s
+		}
+		w.defs = append(w.defs, def{base + "_l", doc + " (left operand)", params(cl), l})
+		w.defs = append(w.defs, def{base + "_r", doc + " (right operand)", params(cr), r})
+	}
+}
+
+// loopcap: `for i := A; i < B; i++` / `i <= B` with integer literals: the number of passes, as a Nat
+func (w *walker) loopcap(where string, t *ast.ForStmt, src []byte) {
+	as, ok := t.Init.(*ast.AssignStmt)
+	if !ok || len(as.Lhs) != 1 || len(as.Rhs) != 1 {
+		return
+	}
+	iv, ok1 := as.Lhs[0].(*ast.Ident)
+	a, ok2 := as.Rhs[0].(*ast.BasicLit)
+	c, ok3 := t.Cond.(*ast.BinaryExpr)
+	inc, ok4 := t.Post.(*ast.IncDecStmt)
+	if !ok1 || !ok2 || !ok3 || !ok4 || a.Kind != token.INT || inc.Tok != token.INC {
+		return
+	}
+	x, ok5 := c.X.(*ast.Ident)
+	b, ok6 := c.Y.(*ast.BasicLit)
+	if !ok5 || !ok6 || x.Name != iv.Name || b.Kind != token.INT {
+		return
+	}
+	var lo, hi int
+	fmt.Sscan(a.Value, &lo)
+	fmt.Sscan(b.Value, &hi)
+	n := hi - lo
+	if c.Op == token.LEQ {
+		n++
+	} else if c.Op != token.LSS {
+		return
+	}
+	if n < 0 {
+		n = 0
+	}
+	key := where + "_loopcap"
+	w.count[key]++
+	p := w.fset.Position(t.Pos())
+	w.nats = append(w.nats, def{fmt.Sprintf("%s_%s_%d", strings.TrimSuffix(w.file, ".go"), key, w.count[key]),
+		fmt.Sprintf("%s:%d `for %s; %s; %s`: number of passes", w.file, p.Line, text(w.fset, src, t.Init), text(w.fset, src, t.Cond), text(w.fset, src, t.Post)), "", fmt.Sprint(n)})
 }
 
 func text(fset *token.FileSet, src []byte, n ast.Node) string {
@@ -252,6 +342,7 @@ func (w *walker) stmts(where string, list []ast.Stmt, src []byte) {
 				}
 			}
 		case *ast.IfStmt:
+			w.cond(where, t.Cond, src)
 			w.stmts(where, t.Body.List, src)
 			switch e := t.Else.(type) {
 			case *ast.BlockStmt:
@@ -260,6 +351,10 @@ func (w *walker) stmts(where string, list []ast.Stmt, src []byte) {
 				w.stmts(where, []ast.Stmt{e}, src)
 			}
 		case *ast.ForStmt:
+			if t.Cond != nil {
+				w.cond(where, t.Cond, src)
+				w.loopcap(where, t, src)
+			}
 			w.stmts(where, t.Body.List, src)
 		case *ast.BlockStmt:
 			w.stmts(where, t.List, src)
@@ -319,7 +414,10 @@ func main() {
 		for _, d := range w.defs {
 			fmt.Fprintf(&b, "/-- %s -/\ndef %s {α : Type} [RTrans α]%s : α :=\n  %s\n\n", d.doc, d.name, d.params, d.body)
 		}
-		total += len(w.defs)
+		for _, d := range w.nats {
+			fmt.Fprintf(&b, "/-- %s -/\ndef %s : Nat :=\n  %s\n\n", d.doc, d.name, d.body)
+		}
+		total += len(w.defs) + len(w.nats)
 	}
 	b.WriteString("end GeomV.C08.Gen\n")
 	if *out == "" {
